@@ -89,14 +89,15 @@ CLAIMS = {
          "inputs dense around the rounding boundaries and cross-checks the assumed axioms against CPython (quick tier).",
          "assumed: floats are reals (x/10**k, err/10**k exact); E6(v) <= E2(v) <= E6(v)+1, E2(v/10**k) = E2(v)-k, D2(v/10**k) = D2(v), 10 <= D2 <= 99, an exponent "
          "presentation splits at its single 'e' (CPython formatting; cross-checked by sampling only); inputs within 1e-12 of a rounding boundary accept either rounding"),
- "C15": ("Discharged on the real Sampler.load_full_df, save_full_df, add_df and sample_combos: a synced add_df reloads the table file first, appends the new rows after "
+ "C15": ("Discharged on the real Sampler.load_full_df, save_full_df, add_df, gen_cases_fnargs and sample_combos: a synced add_df reloads the table file first, appends the new rows after "
          "everything stored (Rows(full) == Rows(stored) ++ Rows(new); the first table is stored as a copy), saves exactly that under the sampler's data_name by writing a "
          "temporary name and swapping (crash clause: the table file is the old or the complete new table, never absent or partial), and memory == disk afterwards; without "
-         "sync nothing on disk changes; sample_combos draws (gen_cases_fnargs), runs the Runner once on exactly the drawn cases with to_df, records last_df and appends "
+         "sync nothing on disk changes; gen_cases_fnargs (both generator expressions cut by loop invariants) returns the keys of {**default_combos, **combos} in order and max(n, 0) cases, "
+         "each with one value per argument that is an element of that argument's own choices or the product of its generator; sample_combos draws with it, runs the Runner once on exactly the drawn cases with to_df, records last_df and appends "
          "exactly that table. That a row's outputs are the function's values at the row's arguments is C03's results_to_df contract. BOUNDED: replay/C15.py sampling "
          "histories on the real code (quick tier).",
          "assumed: pandas concat(ignore_index, sort) appends rows; to_<engine>/read_<engine> store and return the whole table (csv changes dtypes: bounded only); "
-         "numpy.random.choice returns an element of its argument; gen_cases_fnargs (nested generator expressions) has an assumed summary exercised by the replay only; "
+         "numpy.random.choice returns an element of its argument (distribution not decided); user generators return arbitrary values; "
          "induction over the history is a meta-argument"),
  "C16": ("gen_cluster_script is verified as a slice starting at the assignment of `opts` (the resource-parsing prefix is skipped, its results arbitrary): explicit batch "
          "ids are used as given; with none given the script grows every batch 1..num_batches when nothing is grown yet (array mode 'all', header range 1-num_batches, task "
